@@ -16,6 +16,8 @@
        and may later be called from ANY frame (values flow freely - an over-approximation);
      * Write(o): the write guard `real(o) => owner(o) = st` of IsReadonlyBy/DidUpdate; a failed
        guard aborts the transaction (nothing persists);
+     * Convert(p): re-typing a value stored in another realm as a library type with mutating methods is
+       refused (doOpConvert case 1; switch ConvertGuard, Interrealm_conv.cfg shows the foreign write without it);
      * construction of a value of a realm-declared type requires st = declaring realm
        (Allocator.checkConstructionTime, doOpConvert) - action Construct.
 
@@ -44,7 +46,7 @@
                literal, new, conversion) in attacker code, and persisting a realm value; the transaction must fail. *)
 EXTENDS Integers, Sequences, FiniteSets, TLC, Json
 
-CONSTANTS Pkgs, Victim, EphemeralIsRealm, MaxDepth, MaxFvals, Shapes,
+CONSTANTS Pkgs, Victim, EphemeralIsRealm, ConvertGuard, MaxDepth, MaxFvals, Shapes,
           KindOfC, CtxsC, PathsC, WritesC   \* tables, defined in MCInterrealm
 
 KindOf == KindOfC
@@ -52,9 +54,9 @@ Ctxs == CtxsC
 Paths == PathsC
 Writes == WritesC
 
-VARIABLES stack, fvals, val, aborted, wlog, n, hist
-vars == <<stack, fvals, val, aborted, wlog, n, hist>>
-View == <<stack, fvals, val, aborted, wlog, n>>
+VARIABLES stack, fvals, val, aborted, wlog, alias, laund, n, hist
+vars == <<stack, fvals, val, aborted, wlog, alias, laund, n, hist>>
+View == <<stack, fvals, val, aborted, wlog, alias, laund, n>>
 
 None == "none"
 NoWrite == [obj |-> None, code |-> None, st |-> None, auth |-> FALSE]
@@ -82,7 +84,7 @@ StOf(top, c, eph) ==
 AuthOf(top, c) ==
   IF c.pkg = Victim THEN TRUE
   ELSE IF KindOf[c.pkg] # "p" THEN FALSE
-  ELSE IF c.kind = "method" /\ c.recv # None THEN c.recv = Victim
+  ELSE IF c.kind = "method" /\ c.recv # None THEN c.recv = Victim /\ c.pkg \notin laund
   ELSE IF c.kind = "closure" /\ c.minter # None THEN c.minter = Victim
   ELSE top.auth                                                                    \* documented no-anchor inheritance
 
@@ -99,14 +101,18 @@ Top == stack[Len(stack)]
 \* which callees may the running frame name?  (/p/ code cannot import realms: it can only call
 \* its own package and function values; function values and methods on reachable objects are
 \* available to everybody)
+\* the machine part runs over MPkgs: the third-party library T is, for PushFrameCall, exactly like the attacker's
+\* /p/ package Q (a /p/ package the victim did not choose); T only names stdlib types in the shape tables
+MPkgs == Pkgs \ {"T"}
 Callable(fr) ==
-  LET named == IF KindOf[fr.code] = "p" THEN {p \in Pkgs : KindOf[p] = "p"} ELSE Pkgs \ {"S"}
+  LET named == IF KindOf[fr.code] = "p" THEN {p \in MPkgs : KindOf[p] = "p"} ELSE MPkgs \ {"S"}
   IN  {X(p) : p \in {q \in named : KindOf[q] = "r"}}
       \cup {F(p) : p \in named \cup {fr.code}}
-      \cup {F(p) : p \in Pkgs}                      \* a top-level function passed around as a value
-      \cup {M(p, r) : p \in {q \in Pkgs : KindOf[q] = "p"}, r \in Realms \cup {None}}
-      \cup {M(p, p) : p \in {q \in Pkgs : KindOf[q] # "p"}}   \* realm types are only constructed at home
-      \cup {M(p, None) : p \in {q \in Pkgs : KindOf[q] # "p"}}
+      \cup {F(p) : p \in MPkgs}                      \* a top-level function passed around as a value
+      \cup {M(p, r) : p \in {q \in MPkgs : KindOf[q] = "p"}, r \in (Realms \ {Victim}) \cup {None}}
+      \cup {M(p, Victim) : p \in alias}          \* a victim-owned value typed by library p must exist
+      \cup {M(p, p) : p \in {q \in MPkgs : KindOf[q] # "p"}}   \* realm types are only constructed at home
+      \cup {M(p, None) : p \in {q \in MPkgs : KindOf[q] # "p"}}
       \cup fvals
 
 Init ==
@@ -115,6 +121,7 @@ Init ==
   /\ val = [o \in Objs |-> 0]
   /\ aborted = FALSE
   /\ wlog = NoWrite
+  /\ alias = {"L"} /\ laund = {}
   /\ n = 0
   /\ hist = <<>>
 
@@ -124,20 +131,20 @@ Call(c) ==
   /\ ~aborted /\ Len(stack) < MaxDepth
   /\ c.kind = "cross" => KindOf[c.pkg] = "r"
   /\ stack' = Append(stack, Push(Top, c, EphemeralIsRealm))
-  /\ UNCHANGED <<fvals, val, aborted, wlog>>
+  /\ UNCHANGED <<fvals, val, aborted, wlog, alias, laund>>
   /\ Step([act |-> "Call", kind |-> c.kind, pkg |-> c.pkg, recv |-> c.recv, minter |-> c.minter])
 
 Return ==
   /\ ~aborted /\ Len(stack) > 1
   /\ stack' = SubSeq(stack, 1, Len(stack) - 1)
-  /\ UNCHANGED <<fvals, val, aborted, wlog>>
+  /\ UNCHANGED <<fvals, val, aborted, wlog, alias, laund>>
   /\ Step([act |-> "Return"])
 
 Mint ==   \* the running frame evaluates a FuncLit: the closure is stamped with the storage context
   /\ ~aborted /\ Cardinality(fvals) < MaxFvals
   /\ C(Top.code, Top.st) \notin fvals
   /\ fvals' = fvals \cup {C(Top.code, Top.st)}
-  /\ UNCHANGED <<stack, val, aborted, wlog>>
+  /\ UNCHANGED <<stack, val, aborted, wlog, alias, laund>>
   /\ Step([act |-> "Mint", pkg |-> Top.code, minter |-> Top.st])
 
 Write(o) ==
@@ -149,7 +156,7 @@ Write(o) ==
      ELSE /\ aborted' = TRUE              \* readonly panic: the transaction fails, nothing persists
           /\ val' = [x \in Objs |-> 0]
           /\ wlog' = NoWrite
-  /\ UNCHANGED <<stack, fvals>>
+  /\ UNCHANGED <<stack, fvals, alias, laund>>
   /\ Step([act |-> "Write", obj |-> o])
 
 \* composite literal / new() / conversion producing a value of a type declared in realm p: allowed only while
@@ -157,10 +164,25 @@ Write(o) ==
 Construct(p) ==
   /\ ~aborted /\ p = Victim /\ Top.st # p     \* at home it is a no-op for this model; elsewhere the tx aborts
   /\ aborted' = TRUE /\ val' = [x \in Objs |-> 0] /\ wlog' = NoWrite
-  /\ UNCHANGED <<stack, fvals>>
+  /\ UNCHANGED <<stack, fvals, alias, laund>>
   /\ Step([act |-> "Construct", pkg |-> p])
 
-MachineNext == (\E p \in Pkgs : Construct(p)) \/ ( (\E c \in Callable(Top) : Call(c)) \/ Return \/ Mint \/ (\E o \in Objs : Write(o)) )
+\* Convert(p): the running frame re-types a victim-owned value as a named type of library package p (a type with
+\* mutating methods: sort.IntSlice, a /p/ slice/map/array/struct twin).  doOpConvert "case 1" refuses the conversion of
+\* a real value stored in another realm (ConvertGuard); it is allowed while the storage context IS the victim.  Afterwards
+\* methods of p can be dispatched on a victim-owned receiver (borrow rule #2 then switches to the victim).  `laund`
+\* remembers receivers re-typed by a frame without the victim's authority: their methods do not act for the victim.
+Convert(p) ==
+  /\ ~aborted /\ KindOf[p] = "p" /\ p \notin alias
+  /\ IF ConvertGuard /\ Top.st # Victim
+     THEN aborted' = TRUE /\ val' = [x \in Objs |-> 0] /\ wlog' = NoWrite /\ UNCHANGED <<alias, laund>>
+     ELSE /\ alias' = alias \cup {p}
+          /\ laund' = IF Top.auth THEN laund ELSE laund \cup {p}
+          /\ UNCHANGED <<aborted, val, wlog>>
+  /\ UNCHANGED <<stack, fvals>>
+  /\ Step([act |-> "Convert", pkg |-> p])
+
+MachineNext == (\E p \in MPkgs : Convert(p)) \/ (\E p \in MPkgs : Construct(p)) \/ ( (\E c \in Callable(Top) : Call(c)) \/ Return \/ Mint \/ (\E o \in Objs : Write(o)) )
 
 \* ---- invariants of the machine
 StorageImpliesAuthority == \A i \in 1..Len(stack) : stack[i].st = Victim => stack[i].auth
@@ -170,10 +192,15 @@ NothingPersistsFromAbort == aborted => \A o \in Objs : val[o] = 0
 \* construction of a victim-declared value succeeds only in a frame whose storage context is the victim
 \* (guard of Construct); such a frame is never attacker-declared realm / script code
 ConstructOnlyAtHome == \A i \in 1..Len(stack) : (stack[i].st = Victim /\ KindOf[stack[i].code] # "p") => stack[i].code = Victim
+\* no library-typed alias of a victim object was ever produced outside the victim's authority
+NoLaunderedReceiver == laund = {}
 RealmCodeRunsAtHome == \A i \in 1..Len(stack) : RealmDeclared(stack[i].code, EphemeralIsRealm) => stack[i].st = stack[i].code
 
 \* ------------------------------------------------------------------ SHAPES
-WriterChain(ctx, path, wk) == ctx.calls \o path.via \o wk.via
+\* "own" in a write kind's chain = a type declared by the package whose code contains the write statement
+OwnCode(ctx, path) == LET b == Chain(Main, ctx.calls \o path.via, TRUE) IN b[Len(b)].code
+Resolve(via, own) == [i \in DOMAIN via |-> IF via[i].pkg = "own" THEN [via[i] EXCEPT !.pkg = own] ELSE via[i]]
+WriterChain(ctx, path, wk) == ctx.calls \o path.via \o Resolve(wk.via, OwnCode(ctx, path))
 
 ShapeOK(ctx, path, wk) ==
   /\ wk.typ = path.typ
@@ -181,18 +208,30 @@ ShapeOK(ctx, path, wk) ==
   /\ ctx.ponly => path.pname                          \* a /p/ helper cannot name realm-declared types
   /\ (wk.needcur => ctx.hascur)
 
+\* A write kind with conv # None first RE-TYPES the victim-owned handle (to a library / attacker-declared / unnamed
+\* type) and then writes through the converted value (index write or a mutating method, wk.via).  The conversion is
+\* executed by the frame convAt calls below the statement (0 = the statement itself, 1 = inside the library function it
+\* calls, e.g. sort.Ints converts to sort.IntSlice).  Documented rule: that frame must hold the victim's storage context.
 ShapeRec(ctx, path, wk, inl) ==
   LET chD == Chain(Main, WriterChain(ctx, path, wk), TRUE)
       chE == Chain(Main, WriterChain(ctx, path, wk), FALSE)
       wD == chD[Len(chD)]
       wE == chE[Len(chE)]
+      ci == Len(ctx.calls) + Len(path.via) + 1 + wk.convAt
+      cD == chD[ci]
+      cE == chE[ci]
+      isConv == wk.conv # None
       cls == IF path.typ \in {"ctor", "pcur"} THEN "forbid"
+             ELSE IF isConv THEN (IF cD.auth THEN "open" ELSE "verdict")
              ELSE IF wD.code \in {Victim, "L"} THEN "control"
              ELSE IF wD.code = "Q" /\ wD.auth THEN "open"
              ELSE "verdict"
   IN [act |-> "Shape", ctx |-> ctx.name, path |-> path.name, wk |-> wk.name, inl |-> inl,
-      wcode |-> wD.code, wst |-> wD.st, cls |-> cls,
-      mutDoc |-> (path.typ # "pcur" /\ wD.st = Victim), mutEph |-> (path.typ # "pcur" /\ wE.st = Victim), depth |-> Len(chD)]
+      wcode |-> wD.code, wst |-> wD.st, cls |-> cls, conv |-> wk.conv,
+      mutDoc |-> (path.typ # "pcur" /\ wD.st = Victim /\ (isConv => cD.st = Victim)),
+      mutEph |-> (path.typ # "pcur" /\ wE.st = Victim /\ (isConv => cE.st = Victim)),
+      mutConv |-> (isConv /\ wD.st = Victim),          \* what happens if the conversion guard is missing
+      depth |-> Len(chD)]
 
 Pick ==
   /\ n = 0
@@ -204,7 +243,7 @@ Pick ==
           IN /\ stack' = ch
              /\ hist' = <<r>>
              /\ n' = 1
-  /\ UNCHANGED <<fvals, val, aborted, wlog>>
+  /\ UNCHANGED <<fvals, val, aborted, wlog, alias, laund>>
 
 ShapeWrite ==
   /\ n = 1
@@ -215,14 +254,14 @@ ShapeWrite ==
              /\ UNCHANGED aborted
         ELSE /\ aborted' = TRUE /\ UNCHANGED <<val, wlog>>
   /\ n' = 2
-  /\ UNCHANGED <<stack, fvals, hist>>
+  /\ UNCHANGED <<stack, fvals, hist, alias, laund>>
 
 ShapeNext == Pick \/ ShapeWrite
 
 \* every verdict shape is blocked by the documented rules; every control mutates
 VerdictShapesBlocked == (Shapes /\ n >= 1) => (hist[1].cls \in {"verdict", "forbid"} => ~hist[1].mutDoc)
 ControlsMutate == (Shapes /\ n >= 1) => (hist[1].cls \in {"control", "open"} => hist[1].mutDoc)
-ShapeAgreesWithMachine == (Shapes /\ n = 2 /\ hist[1].cls # "forbid") => ((val["vR"] = 1) <=> hist[1].mutDoc)
+ShapeAgreesWithMachine == (Shapes /\ n = 2 /\ hist[1].cls # "forbid" /\ hist[1].conv = None) => ((val["vR"] = 1) <=> hist[1].mutDoc)
 
 Next == IF Shapes THEN ShapeNext ELSE MachineNext
 Spec == Init /\ [][Next]_vars
